@@ -81,3 +81,27 @@ pub fn random_larger(seed: u64) -> String {
     }
     s
 }
+
+/// operator grammars: an expression rule with binary operators under precedence declarations, and wrapper rules in which
+/// the same operators follow an expression in other contexts (the same shift/reduce conflict then arises in several states)
+pub fn ops(seed: u64) -> String {
+    let mut r = Rng(seed.wrapping_mul(0xC2B2AE3D27D4EB4F) | 1);
+    let ops = ["'+'", "'*'", "'='"];
+    let nops = 2 + r.below(2);
+    let kinds = ["%left", "%right", "%nonassoc"];
+    let mut s = String::from("%start S\n");
+    for o in 0..nops { if r.below(4) != 0 { s.push_str(&format!("{} {}\n", kinds[r.below(3)], ops[o])); } }
+    s.push_str("%%\nS: E");
+    let nwrap = 1 + r.below(2);
+    for w in 0..nwrap { if r.below(2) == 0 { s.push_str(&format!(" | 'x' G{}", w)); } else { s.push_str(&format!(" | G{} 'y'", w)); } }
+    s.push_str(";\n");
+    for w in 0..nwrap {
+        s.push_str(&format!("G{}: E", w));
+        for _ in 0..1 + r.below(2) { s.push_str(&format!(" {} E", ops[r.below(nops)])); }
+        s.push_str(&format!(" {} 'b';\n", ops[r.below(nops)]));
+    }
+    s.push_str("E: ");
+    for o in 0..nops { s.push_str(&format!("E {} E | ", ops[o])); }
+    s.push_str("'a';\n");
+    s
+}
